@@ -218,8 +218,15 @@ def part_tcp_reader(res, rng, tier):
     delivered are those of the stream."""
     import mysensors.gateway_tcp as gtcp
     n = 6 if tier == "quick" else 40
-    for case in range(n):
-        stream = gen_stream(rng, rng.randrange(5, 70))
+    streams = [gen_stream(rng, rng.randrange(5, 70)) for _ in range(n)]
+    # bursts whose last recv(120) piece is the line terminator alone, or a lone CR / LF pair split over two pieces
+    frame = b"1;255;0;0;17;2.2\n2;255;0;0;17;2.2\n"
+    for k in (1, 2, 5):
+        body = frame * 3
+        fill = (120 * k + 1 - len(body) - 1) % 120
+        streams.append(body + b"x" * fill + b"\n" + b"" if (len(body) + fill + 1) % 120 == 1 else body)
+        streams.append(body + b"y" * ((120 * k - len(body) - 1) % 120) + b"\r\n" + frame)
+    for stream in streams:
         proto, lines = make_protocol("base")
         a, b = socket.socketpair()
         total = len(stream)
@@ -227,8 +234,9 @@ def part_tcp_reader(res, rng, tier):
 
         def check_conn():
             # the watchdog hook of the reader loop: used here to end the loop once the whole
-            # stream has been handed to the protocol
-            if state["done"]:
+            # stream has been handed to the protocol (or the loop has idled on the drained socket)
+            state["spins"] = state.get("spins", 0) + 1
+            if state["done"] or state["spins"] > 4 * (total // 100 + 10):
                 raise OSError("stop reader")
         orig_time = gtcp.time
         gtcp.time = FakeTime()
@@ -722,11 +730,13 @@ def run(tier, seed, driver):
     part_end_to_end(res, rng, tier)
     res.exhaustive = False
     res.rule = ("framing: byte streams built from valid frames, garbage, CRLF/LF, empty lines, multi-byte and "
-                "invalid UTF-8, NUL, unterminated tails; every single cut (streams <= 40 bytes), every pair of "
+                "invalid UTF-8, NUL, unterminated tails, unterminated noise of 101 … 8193 (thorough: 200001) bytes before "
+                "a frame with read sizes 64 … 65536; every single cut (streams <= 40 bytes), every pair of "
                 "cuts (<= 20/28 bytes), byte-by-byte, recv(120), random multi-cuts; three real protocol "
                 "classes; the real TCPTransport.run loop on a socketpair. flavours: generated histories "
                 "(versions 1.4-2.2, smart-sleep wake-ups, unknown nodes, OTA) under three pump schedules each "
-                "(random interleaving, everything queued before the pump runs, drained between lines) on the "
+                "(random interleaving, everything queued before the pump runs, drained between lines), plus backlogs of "
+                "130 … 520 (thorough: 2300) lines queued before the threaded pump runs, on the "
                 "real BaseSyncGateway via single iterations of the real _poll_queue loop vs the real "
                 "BaseAsyncGateway; end-to-end: bytes -> state and transport log, chunked vs whole. "
                 "non-trivial = at least one line delivered / one command sent")
